@@ -104,6 +104,34 @@ Section Spec.
     split; [lia|]. split; [exact H1|]. intros q Hq. apply H2. lia.
   Qed.
 
+  (* ---- runs of one byte value ----
+     Inside a run of one byte every window is the same, so the rule either cuts after min+1 bytes
+     (when the discriminator meets the hash of that window: "resonant" parameters, e.g. zero runs
+     with avg = 5251) or not at all.  "A zero run contains no boundary" holds exactly in the
+     second case. *)
+  Lemma bnd_constant b n q : W <= q <= n -> bnd d (repeat b n) q = is_boundary d (win_hash (repeat b W)).
+  Proof.
+    intros Hq. unfold bnd, slice. f_equal. f_equal.
+    replace n with ((q - W) + (n - (q - W))) by lia. rewrite repeat_app, skipn_app, repeat_length.
+    rewrite skipn_all2 by (rewrite repeat_length; lia). rewrite Nat.sub_diag. cbn [app skipn].
+    replace (n - (q - W)) with (W + (n - q)) by lia. rewrite repeat_app, firstn_app, repeat_length, Nat.sub_diag.
+    rewrite firstn_all2 by (rewrite repeat_length; lia). cbn [firstn]. apply app_nil_r.
+  Qed.
+
+  Theorem cut_constant_run b n :
+    min < n -> min < max ->
+    cut (repeat b n) = if is_boundary d (win_hash (repeat b W)) then S min else Nat.min max n.
+  Proof.
+    intros Hn Hlt. pose proof (cut_rule (repeat b n)) as R. rewrite repeat_length in R.
+    specialize (R Hn Hlt). cbv zeta in R. destruct R as ((Hc1 & Hc2) & Hb & Hnb).
+    destruct (is_boundary d (win_hash (repeat b W))) eqn:E.
+    - (* resonant: position min+1 is a boundary, nothing before it is considered *)
+      destruct (Nat.eq_dec (cut (repeat b n)) (S min)) as [->|Hne]; [reflexivity|].
+      specialize (Hnb (S min) ltac:(lia)). rewrite bnd_constant in Hnb by lia. congruence.
+    - destruct (Nat.eq_dec (cut (repeat b n)) (Nat.min max n)) as [->|Hne]; [reflexivity|].
+      specialize (Hb ltac:(lia)). rewrite bnd_constant in Hb by lia. congruence.
+  Qed.
+
   Theorem cut_short data : length data <= min -> cut data = length data.
   Proof. intros. unfold cut_spec. replace (length data <=? min) with true by lia. reflexivity. Qed.
 
